@@ -15,7 +15,17 @@
 package main
 
 import (
+	"bytes"
+	"encoding/json"
 	"fmt"
+	"io/ioutil"
+	"os"
+	"os/exec"
+	"path/filepath"
+	"sort"
+	"strings"
+	"sync"
+	"time"
 
 	"github.com/logrange/logrange/api/rpc"
 	. "verifharness/common"
@@ -169,12 +179,252 @@ func corpus() []Replay {
 	return []Replay{{E2E: &oversize}, {E2E: &trunc}, {E2E: &roll}}
 }
 
+// ---------------------------------------------------------------- crash isolation
+// The end-to-end cases run the whole server in-process. A code change that makes a server goroutine panic
+// (nothing recovers on the RPC path) or spin for ever would take the harness down with it and the verdict
+// would be lost. So these cases run in a child process (this binary, C01_CHILD set): the child appends one
+// JSON line per finished case; when it dies or hangs the parent re-runs the cases that were in flight one by
+// one and turns a repeated crash / hang into an oracle verdict with that case as the replay.
+
+type childRes struct {
+	Idx        int        `json:"idx"`
+	Coq        string     `json:"coq"`
+	NonTrivial bool       `json:"nontrivial"`
+	Oracle     *Violation `json:"oracle,omitempty"`
+	Tags       []string   `json:"tags,omitempty"`
+	Stream     string     `json:"stream"`
+	Key        string     `json:"key,omitempty"`
+	Err        string     `json:"err,omitempty"`
+}
+
+const dummyCoq = "(KVarint 0%N [x00] 1%nat)"
+
+func childMain(jobsFile, outFile string) {
+	Quiet()
+	data, err := ioutil.ReadFile(jobsFile)
+	if err != nil {
+		fmt.Fprintln(os.Stderr, err)
+		os.Exit(2)
+	}
+	var jobs []struct {
+		Idx int    `json:"idx"`
+		Rp  Replay `json:"rp"`
+	}
+	if err := json.Unmarshal(data, &jobs); err != nil {
+		fmt.Fprintln(os.Stderr, err)
+		os.Exit(2)
+	}
+	f, err := os.OpenFile(outFile, os.O_CREATE|os.O_WRONLY|os.O_APPEND, 0644)
+	if err != nil {
+		fmt.Fprintln(os.Stderr, err)
+		os.Exit(2)
+	}
+	var mu sync.Mutex
+	emit := func(v interface{}) {
+		b, _ := json.Marshal(v)
+		mu.Lock()
+		f.Write(append(b, '\n'))
+		mu.Unlock()
+	}
+	Parallel(len(jobs), 8, func(i int) {
+		emit(map[string]int{"start": jobs[i].Idx})
+		cs, err := mkCase(jobs[i].Rp)
+		r := childRes{Idx: jobs[i].Idx}
+		if err != nil {
+			r.Err = err.Error()
+		} else {
+			r.Coq, r.NonTrivial, r.Oracle, r.Tags, r.Stream, r.Key = cs.Coq, cs.NonTrivial, cs.Oracle, cs.Tags, cs.Stream, cs.Key
+		}
+		emit(r)
+	})
+	f.Close()
+	os.Exit(0)
+}
+
+// runChild runs the jobs (index -> replay) in one child; returns the finished results, the indices that were
+// started but not finished, and how the child ended ("" = clean)
+func runChild(c *Ctx, jobs map[int]Replay, timeout time.Duration) (map[int]childRes, []int, string, error) {
+	dir, err := ioutil.TempDir(os.Getenv("VERIF_SCRATCH"), "lrv-c01child-")
+	if err != nil {
+		return nil, nil, "", err
+	}
+	defer os.RemoveAll(dir)
+	type jb struct {
+		Idx int    `json:"idx"`
+		Rp  Replay `json:"rp"`
+	}
+	var lst []jb
+	for i, rp := range jobs {
+		lst = append(lst, jb{i, rp})
+	}
+	sort.Slice(lst, func(a, b int) bool { return lst[a].Idx < lst[b].Idx })
+	data, _ := json.Marshal(lst)
+	jf, of := filepath.Join(dir, "jobs.json"), filepath.Join(dir, "out.jsonl")
+	if err := ioutil.WriteFile(jf, data, 0644); err != nil {
+		return nil, nil, "", err
+	}
+	exe, err := os.Executable()
+	if err != nil {
+		return nil, nil, "", err
+	}
+	scratch := filepath.Join(dir, "scratch")
+	os.MkdirAll(scratch, 0755)
+	cmd := exec.Command(exe)
+	cmd.Env = append(os.Environ(), "C01_CHILD="+jf, "C01_CHILD_OUT="+of, "VERIF_SCRATCH="+scratch, "TMPDIR="+scratch)
+	var stderr bytes.Buffer
+	cmd.Stderr = &stderr
+	if err := cmd.Start(); err != nil {
+		return nil, nil, "", err
+	}
+	done := make(chan error, 1)
+	go func() { done <- cmd.Wait() }()
+	how := ""
+	deadline := time.After(timeout)
+	tick := time.NewTicker(500 * time.Millisecond)
+	defer tick.Stop()
+wait:
+	for {
+		select {
+		case e := <-done:
+			if e != nil {
+				tail := stderr.String()
+				if len(tail) > 1500 {
+					tail = tail[:1500]
+				}
+				how = "crashed: " + e.Error() + ": " + tail
+			}
+			break wait
+		case <-deadline:
+			cmd.Process.Kill()
+			<-done
+			how = fmt.Sprintf("did not finish within %s", timeout)
+			break wait
+		case <-tick.C:
+			// a write loop that never ends fills the disk: the cases here store a few KB
+			if sz := dirSize(scratch); sz > 256<<20 {
+				cmd.Process.Kill()
+				<-done
+				how = fmt.Sprintf("did not finish: it had written %d MB to its data directory when it was stopped (runaway write)", sz>>20)
+				break wait
+			}
+		}
+	}
+	res := map[int]childRes{}
+	started := map[int]bool{}
+	if out, err := ioutil.ReadFile(of); err == nil {
+		for _, line := range strings.Split(string(out), "\n") {
+			if line == "" {
+				continue
+			}
+			var st struct {
+				Start *int `json:"start"`
+			}
+			if json.Unmarshal([]byte(line), &st) == nil && st.Start != nil {
+				started[*st.Start] = true
+				continue
+			}
+			var r childRes
+			if json.Unmarshal([]byte(line), &r) == nil {
+				res[r.Idx] = r
+			}
+		}
+	}
+	var inflight []int
+	for i := range started {
+		if _, ok := res[i]; !ok {
+			inflight = append(inflight, i)
+		}
+	}
+	sort.Ints(inflight)
+	return res, inflight, how, nil
+}
+
+func dirSize(d string) int64 {
+	var n int64
+	filepath.Walk(d, func(_ string, fi os.FileInfo, err error) error {
+		if err == nil && !fi.IsDir() {
+			n += fi.Size()
+		}
+		return nil
+	})
+	return n
+}
+
+// runIsolated runs all jobs in child processes and returns one result per job
+func runIsolated(c *Ctx, jobs map[int]Replay) (map[int]childRes, error) {
+	all := map[int]childRes{}
+	todo := map[int]Replay{}
+	for i, rp := range jobs {
+		todo[i] = rp
+	}
+	for round := 0; len(todo) > 0 && round < 20; round++ {
+		res, inflight, how, err := runChild(c, todo, 5*time.Minute)
+		if err != nil {
+			return nil, err
+		}
+		for i, r := range res {
+			all[i] = r
+			delete(todo, i)
+		}
+		if how == "" {
+			break
+		}
+		// the child died or hung: pin down which of the cases in flight does it, alone
+		for _, i := range inflight {
+			r1, _, how1, err := runChild(c, map[int]Replay{i: todo[i]}, 2*time.Minute)
+			if err != nil {
+				return nil, err
+			}
+			if r, ok := r1[i]; ok && how1 == "" {
+				all[i] = r
+			} else {
+				cls := "server-crashed"
+				if strings.HasPrefix(how1, "did not finish") {
+					cls = "request-did-not-return"
+				}
+				all[i] = childRes{Idx: i, Coq: dummyCoq, Stream: "e2e", Oracle: &Violation{Class: cls, Detail: "running this case alone, the process hosting the server " + how1}}
+			}
+			delete(todo, i)
+		}
+		if len(inflight) == 0 {
+			return nil, fmt.Errorf("child %s with no case in flight", how)
+		}
+	}
+	if len(todo) > 0 {
+		return nil, fmt.Errorf("%d cases could not be run", len(todo))
+	}
+	return all, nil
+}
+
+func fromChild(r childRes, rp Replay) (Case, error) {
+	if r.Err != "" {
+		return Case{}, fmt.Errorf("%s", r.Err)
+	}
+	return Case{Coq: r.Coq, Replay: rp, NonTrivial: r.NonTrivial, Oracle: r.Oracle, Stream: r.Stream, Tags: r.Tags, Key: r.Key}, nil
+}
+
 func main() {
+	if jf := os.Getenv("C01_CHILD"); jf != "" {
+		childMain(jf, os.Getenv("C01_CHILD_OUT"))
+		return
+	}
 	Main("C01", "C01K", func(c *Ctx) error {
 		if c.Replay != nil {
 			var rp Replay
 			if err := FromJSON(c.Replay, &rp); err != nil {
 				return err
+			}
+			if rp.E2E != nil {
+				res, err := runIsolated(c, map[int]Replay{0: rp})
+				if err != nil {
+					return err
+				}
+				cs, err := fromChild(res[0], rp)
+				if err != nil {
+					return err
+				}
+				c.Add(cs)
+				return c.Finish(rule)
 			}
 			cs, err := mkCase(rp)
 			if err != nil {
@@ -199,10 +449,31 @@ func main() {
 		}
 		res := make([]*Case, len(jobs))
 		errs := make([]error, len(jobs))
-		Parallel(len(jobs), 8, func(i int) {
-			res[i], errs[i] = mkCase(jobs[i])
+		iso := map[int]Replay{}
+		for i, j := range jobs {
+			if j.E2E != nil {
+				iso[i] = j
+			}
+		}
+		var isoRes map[int]childRes
+		var isoErr error
+		var wg sync.WaitGroup
+		wg.Add(1)
+		go func() { defer wg.Done(); isoRes, isoErr = runIsolated(c, iso) }()
+		Parallel(len(jobs), 4, func(i int) {
+			if jobs[i].Unit != nil {
+				res[i], errs[i] = mkCase(jobs[i])
+			}
 		})
+		wg.Wait()
+		if isoErr != nil {
+			return isoErr
+		}
 		for i := range jobs {
+			if jobs[i].E2E != nil {
+				cs, err := fromChild(isoRes[i], jobs[i])
+				res[i], errs[i] = &cs, err
+			}
 			if errs[i] != nil {
 				return fmt.Errorf("case %d: %v", i, errs[i])
 			}
